@@ -805,6 +805,64 @@ def r17_8(rep: Report, idx: Index, models: dict[str, Model], assoc) -> None:
     rep.extra['bulk_deletes'] = n
 
 
+def r17_9(rep: Report, idx: Index) -> None:
+    """R17.9  the files of a stream live in <blob folder>/<Stream.directory>/; the directory of an existing stream
+    row is assigned only on paths that imply the stream owns no media files (`MediaFile.count(stream=s) == 0`,
+    `not s.media_files`, `len(s.media_files) == 0`).  Otherwise every stored file of the stream is looked
+    for in a folder it is not in: open_file raises, re-indexing reports FILE_NOT_FOUND, new uploads land
+    elsewhere."""
+    from ..flow import Disjunctive, Flow
+    from ..pathcond import PathCond, atoms_of, entails as pc_entails, f_not, f_or, show as pc_show
+    n = 0
+    for rel in rep.repo.py_files('dashlive/server/requesthandler'):
+        tree = rep.repo.tree(rel)
+        if '.directory' not in rep.repo.source(rel):
+            continue
+        for cls_ in [c for c in ast.walk(tree) if isinstance(c, ast.ClassDef)]:
+            for fn in [m for m in cls_.body if isinstance(m, (ast.FunctionDef, ast.AsyncFunctionDef))]:
+                fn = find_func(cls_, fn.name) or fn
+                stores = [a for a in ast.walk(fn) if isinstance(a, ast.Assign) and any(
+                    isinstance(t, ast.Attribute) and t.attr == 'directory' and isinstance(t.value, ast.Name) for t in a.targets)]
+                if not stores:
+                    continue
+                hits: list = []
+
+                def on_stmt(st, states, _stores=stores, _hits=hits):
+                    if any(st is a for a in _stores):
+                        _hits.extend((st, x) for x in states)
+                Flow(Disjunctive(PathCond(), cap=256), on_stmt=on_stmt).run(fn, [PathCond.initial()])
+                for st in stores:
+                    tg = next(t for t in st.targets if isinstance(t, ast.Attribute) and t.attr == 'directory')
+                    row = tg.value.id
+                    # a row built in this function is a new stream, not an existing one
+                    if any(isinstance(a, ast.Assign) and any(isinstance(t, ast.Name) and t.id == row for t in a.targets)
+                           and isinstance(a.value, ast.Call) and (call_name(a.value) or '').split('.')[-1] == 'Stream'
+                           for a in ast.walk(fn)):
+                        continue
+                    n += 1
+                    construct = f'{rel}::{cls_.name}.{fn.name}'
+                    states = [x for s_, x in hits if s_ is st]
+                    bad = None
+                    for x in states:
+                        atoms = atoms_of(x[0])
+                        empty = [('atom', a) for a in atoms if re.fullmatch(
+                            rf'(models\.)?MediaFile\.count\(stream={row}\) == 0|len\({row}\.media_files\) == 0', a)]
+                        empty += [f_not(('atom', a)) for a in atoms if a in (f'{row}.media_files', f'len({row}.media_files)')]
+                        goal = f_or(*empty) if empty else None
+                        if goal is None or pc_entails(x[0], goal) is not True:
+                            bad = x
+                            break
+                    if states and bad is None:
+                        rep.ok('R17.9', construct, f'{row}.directory assigned only for a stream without files')
+                    else:
+                        shown = pc_show(bad[0])[:140] if bad is not None else 'not reached'
+                        rep.fail('R17.9', construct, f'{row}.directory assigned only for a stream without files',
+                                 f'`{short(st, 60)}` changes the directory of an existing stream on a path that does not imply the '
+                                 f'stream owns no media files (path: {shown}): the stored files stay in the old folder while every '
+                                 'lookup goes to the new one', st)
+    rep.extra['stream_directory_stores'] = n
+
+
 def analyse(rep: Report) -> None:
     rep.explanation = (
         'The ORM schema (foreign keys, relationships with cascades, association table, unique '
@@ -822,6 +880,7 @@ def analyse(rep: Report) -> None:
     rep.rule('R17.6', 'a row is deleted and its replacement added in different flushes', floor=1)
     rep.rule('R17.7', 'rows are looked up by values of the kind the column holds', floor=2)
     rep.rule('R17.8', 'bulk DELETE statements only on models that own nothing and are not referred to', floor=1)
+    rep.rule('R17.9', 'the directory of an existing stream changes only while it owns no files', floor=1)
     idx = Index(rep.repo)
     cg = CallGraph(idx)
     eff = Effects(idx, cg)
@@ -844,3 +903,4 @@ def analyse(rep: Report) -> None:
     r17_6(rep, idx, models, sites)
     r17_7(rep, idx, models)
     r17_8(rep, idx, models, assoc)
+    r17_9(rep, idx)
